@@ -46,7 +46,7 @@ impl Property for C01 {
         ]
     }
     fn pbt(&self, tier: Tier) -> PbtCfg {
-        PbtCfg { cases: tier.pick(120_000, 4_000_000), max_len: tier.pick(1500, 5000), shrink_ms: 120_000 }
+        PbtCfg { cases: tier.pick(120_000, 2_000_000), max_len: tier.pick(1500, 5000), shrink_ms: 120_000 }
     }
     fn required_labels(&self) -> Vec<&'static str> {
         vec!["data_lost", "ack_lost", "ack_dup", "sliced_sent", "reordered", "healed_complete", "boundary_len", "deliver_one"]
